@@ -1,5 +1,5 @@
 """Per-property check plans and the generic check runner."""
-import json, os, random, sys, time, glob
+import re, json, os, random, sys, time, glob
 import vlib, gen
 from vlib import log
 
@@ -48,6 +48,11 @@ def MC(*cfgs, thorough=None, bounded=None):
     for c in (bounded or []):
         out.append(dict(module="MC_Kanal", cfg=(None, "MC_Kanal_%s.cfg" % c), bounded=True, timeout=(240, 1500)))
     return out
+
+
+def SHB():
+    """design-level happens-before model of the Signal hand-off (SignalHB.tla), all owner kinds x sides"""
+    return [dict(module="SignalHB", cfg=("MC_SignalHB_%s_%s.cfg" % (k, sd),) * 2, workers=(2, 2)) for k in ("sync", "timed", "async") for sd in ("send", "recv")]
 
 
 def MCA(*cfgs):
@@ -160,7 +165,7 @@ PLANS = {
     "C05": dict(mc=MC("timed", "async", thorough=["t_async"], bounded=["t_timed"]) + MCA("2p"), spec_l1l0=True, runs=[R("general", (250, 4000), (3, 6), "C05", True), R("timed", (200, 3000), (3, 6), "C05", True),
                       R("async", (200, 3000), (3, 6), "C05", True), R("chain", (100, 2000), (2, 6), "C05", True),
                       R("discrace", (0, 0), (1, 1), "C05", True, programs_fn=discrace_sweep(16, (40, 60), "discrace05"))]),
-    "C07": dict(mc=MC("sync", "async", thorough=["t_sync", "t_async"]),
+    "C07": dict(mc=MC("sync", "async", thorough=["t_sync", "t_async"]) + SHB(),
                 runs=[R("hbfreeze", (0, 0), (1, 1), None, False, programs_fn=hbfreeze_programs, rawmon=[("HBMonitor", "HBMonitor.cfg")]),
                       R("fdropfreeze", (0, 0), (1, 1), None, False, programs_fn=freeze_sweep("fdrop", (12, 150), (30, 45), "fdropfreeze"),
                         rawmon=[("HBMonitor", "HBMonitor.cfg")]),
@@ -359,6 +364,8 @@ def run_one_config(prop, run, tier, seed, wd, tag, stats, findings, programs=Non
                 d = done.get(rj["x"], {})
                 findings.append(dict(kind="raw", prog=programs[off + d.get("prog", 0)], seed=d.get("seed", 0),
                                      detail=dict(monitor=module, record=rj["record"][:300], line=rj["line"])))
+        if rawf and os.path.exists(rawf) and run.get("rawmon"):
+            ordering_census(rawf, stats)
         if rawf and os.path.exists(rawf):
             os.remove(rawf)
         if not stats["samples"]:
@@ -366,6 +373,45 @@ def run_one_config(prop, run, tier, seed, wd, tag, stats, findings, programs=Non
             stats["samples"].append(dict(kind="validated real history (program %d)" % done.get(x, {}).get("prog", -1),
                                          events=[json.loads(l) for l in ls[:14]]))
 
+
+_ORD = re.compile(r'"k":"(a8_cas|a8_load|a8_store|ab_cas|ab_store|fence)".*?"a":(\d+),"b":(\d+)')
+ORD_NAME = {0: "Relaxed", 1: "Release", 2: "Acquire", 3: "AcqRel", 4: "SeqCst"}
+
+
+def ordering_census(rawf, stats):
+    """Binding of the ordering constants of SignalHB.tla / SpinMutex.tla to the code: every atomic operation on a Signal's
+    state and on the channel lock must carry exactly the ordering those specifications were checked with.  A deviation is a
+    DRIFT (the happens-before monitor decides whether it is a violation)."""
+    cen = stats.setdefault("ordering_census", {})
+    for l in open(rawf, errors="replace"):
+        m = _ORD.search(l)
+        if not m:
+            continue
+        k, a, b = m.group(1), int(m.group(2)), int(m.group(3))
+        if k == "a8_cas":
+            key = "state.compare_exchange(%s, %s)" % (ORD_NAME.get(b // 256, b // 256), ORD_NAME.get(b % 256, b % 256))
+        elif k == "a8_load":
+            key = "state.load(%s)" % ORD_NAME.get(a, a)
+        elif k == "a8_store":
+            key = "state.store(%s, %s)" % ("LOCKED" if a == 2 else "final", ORD_NAME.get(b, b))
+        elif k == "ab_cas":
+            key = "lock.compare_exchange(%s, %s)" % (ORD_NAME.get(b // 256, b // 256), ORD_NAME.get(b % 256, b % 256))
+        elif k == "ab_store":
+            key = "lock.store(%s)" % ORD_NAME.get(b, b)
+        else:
+            key = "fence(%s)" % ORD_NAME.get(a, a)
+        cen[key] = cen.get(key, 0) + 1
+    for key in cen:
+        if key not in ORD_EXPECTED and key not in stats.setdefault("ordering_drift", []):
+            stats["ordering_drift"].append(key)
+            log("DRIFT: the code uses %s, which is not among the orderings SignalHB.tla / SpinMutex.tla were checked with" % key)
+
+
+# what the specifications assume (SignalHB.tla constants all TRUE; SpinMutex.tla RelOrd = release, lock CAS acquire)
+ORD_EXPECTED = {
+    "state.compare_exchange(Release, Acquire)", "state.load(Relaxed)", "state.load(Acquire)", "state.store(final, Release)",
+    "state.store(LOCKED, Relaxed)", "fence(Acquire)", "lock.compare_exchange(Acquire, Relaxed)", "lock.store(Release)",
+}
 
 STUCK_OWNERS = {"C06"}
 
@@ -465,6 +511,7 @@ def run_check(prop, tier, seed, build=True):
         hook_traces_validated_by_monitor=stats.get("raw_validated", 0),
         hook_traces_validated_l2=stats["l2_validated"], hook_events_validated_l2=stats["l2_events"],
         drift=stats["drift"],
+        atomic_orderings_observed=stats.get("ordering_census", {}), atomic_orderings_not_in_spec=stats.get("ordering_drift", []),
         spec_behaviours_replayed=stats.get("spec_behaviours_replayed", 0),
         spec_behaviours_same_results=stats.get("spec_behaviours_same_results", 0),
         spec_behaviours_followed_exactly=stats.get("spec_behaviours_followed_exactly", 0),
